@@ -57,12 +57,12 @@ class ForwardAnalysis(Generic[T], Analysis[T], ABC):
         vals_before = {bb: self.initial() for bb in bbs}  # return value
         vals_after = {bb: self.apply_bb(vals_before[bb], bb) for bb in bbs}  # cache
         queue = set(bbs)
-        if _verif.ON:
-            queue = _verif.sched_set(queue, "ForwardAnalysis.run")
         while len(queue) > 0:
             # Visit in a fixed order: popping from the set would depend on the memory
             # layout, and the order can show in diagnostics
             bb = min(queue, key=lambda bb: bb.idx)
+            if _verif.ON:
+                bb = _verif.pick(queue, "ForwardAnalysis.run", bb)
             queue.remove(bb)
             preds = (
                 bb.predecessors + bb.dummy_predecessors
@@ -102,12 +102,12 @@ class BackwardAnalysis(Generic[T], Analysis[T], ABC):
         """
         vals_before = {bb: self.initial() for bb in bbs}
         queue = set(bbs)
-        if _verif.ON:
-            queue = _verif.sched_set(queue, "BackwardAnalysis.run")
         while len(queue) > 0:
             # Visit in a fixed order: popping from the set would depend on the memory
             # layout, and the evidence BBs end up in diagnostics
             bb = max(queue, key=lambda bb: bb.idx)
+            if _verif.ON:
+                bb = _verif.pick(queue, "BackwardAnalysis.run", bb)
             queue.remove(bb)
             succs = (
                 bb.successors + bb.dummy_successors
